@@ -172,6 +172,12 @@ class Check:
         self.latent = []
         self.harness_errors = 0
         self.jobs_run = 0
+        try:
+            for fn in os.listdir(REPLAY_DIR):
+                if fn.startswith(prop + "-") and fn.endswith(".json"):
+                    os.unlink(os.path.join(REPLAY_DIR, fn))       # replay files of earlier runs of this property
+        except OSError:
+            pass
         known = load_known()
         self.known = [k for k in known.get("findings", [])
                       if k.get("property") == prop and k.get("status") == "known"]
